@@ -421,8 +421,9 @@ impl Category {
                     parts.reverse();
                     !parts.is_empty()
                         && !parts[0].is_empty()
-                        && parts[0].len() <= 8
-                        && (parts.len() < 2 || parts[1].len() <= 3)
+                        && parts[0].chars().count() <= 8
+                        && (parts.len() < 2
+                            || parts[1].chars().count() <= 3)
                 }
             }
             // TODO: Validate other categories.
